@@ -1,18 +1,28 @@
 //! C10: a concurrent query sees a clean prefix of every table.
 //!
-//! Part 1 (placements): a flush (or an ingestion) is parked at one named sync point at a time; while it is
-//! parked another thread issues queries (present / absent / `*` / non-resident column) and optionally a
-//! second ingestion, each under a deadline; then the parked thread is released, the flush must complete and a
-//! final query must see everything.
-//! Part 2 (stress): N ingest threads, one flusher, M query threads on one table; every query result must be a
-//! batch-whole set of batches that contains every batch acknowledged before the query began and, per ingest
-//! thread, a prefix of that thread's batches.
+//! Part 1 (placements, `place`): a flush (or an ingestion) is parked at one named sync point at a time; while it
+//! is parked another thread optionally evicts the cache, issues a query (present / absent / `*` / extra column),
+//! optionally a second ingestion and a second query, each under a deadline; then the parked thread is released,
+//! the flush must complete and a final query must see everything.
+//! Labels inside a critical section (`flush:batch:taken:t`, `flush:compact:swap:mid:t`): the query must BLOCK there
+//! (q1=blocked) and answer with everything once the step is over (q2) — a witness that the lock is held across.
+//! Part 1b (held queries, `hold`): a QUERY is parked right after it took its snapshot (sync point `cols:enter:t`,
+//! before the first `get_cols`); a whole flush + compaction runs (to completion, or up to a second label where the
+//! flush is parked too); then the query is released and must still answer with the content of its snapshot.
+//! Part 2 (stress): N ingest threads (two tables per request), one flusher (+ evictions), M query threads; every
+//! query result must be a batch-whole set of batches that contains every batch acknowledged before the query
+//! began and, per ingest thread, a prefix of that thread's batches.
 //!
-//! Model line grammar (consumed by lean/LocustModel/Drv/C10.lean):
-//!   place <label> <mem|disk> ev=<0|1> cf=<n> pre=<sizes> buf=<sizes> q=<present|absent|star> ing2=<size|_>
-//!         hit=<0|1> q1=<res> i2=<ok|hang|_> q2=<res|_> fl=<ok|hang> fin=<res>
-//!   stress <threads> <ingesters> <queriers> nq=<n> bad=<n> first=<text|_> fl=<ok|hang> fin=<ok|bad>
-//! <res> = ok:<n>:<b.i,b.i,…>(sorted) | ok:0: | err:<kind> | panic | hang | badnull
+//! Model line grammar (consumed by lean/LocustModel/Drv/C10.lean) — `key=value` tokens after the two head tokens:
+//!   place <label> st=<mem|disk> ev=<0|1> cf=<n> pre=<sizes> buf=<sizes> x=<0|1> two=<0|1> mid=<_|evict>
+//!         q=<present|absent|star|extra> ing2=<size|_> comp=<k> hit=<0|1> q1=<res> i2=<tok> q2=<res|_> fl=<ok|hang|panic> fin=<res>
+//!   hold <upto> st=disk ev=<0|1> rs=<0|1> cf=<n> pre=<sizes> buf=<sizes> x=<0|1> mid=<_|evict> q=<kind> comp=<k> hit=<0|1>
+//!         qh=<res> fl=<ok|hang|panic> fin=<res>
+//!   stress th=<threads> in=<ingesters> qr=<queriers> st=<mem|disk> mode=<clean|rough> nq=<n> bad=<n> badq=<n>
+//!         first=<text|_> fl=<ok|hang> fin=<ok|bad:…>
+//! <res> = ok:<n>:<b.i,b.i,…>(sorted) | ok:0: | err:<kind> | panic | hang | bad<what>
+//! comp = number of partitions of table t the parked flush compacted (0 = no compaction), read off the trace —
+//!        plan_compaction depends on allocator-reported sizes, so this is an input of the model, not a prediction.
 use std::collections::{BTreeMap, BTreeSet};
 use std::sync::atomic::{AtomicBool, AtomicU64, Ordering};
 use std::sync::{Arc, Condvar, Mutex};
@@ -21,13 +31,20 @@ use vharness::locustdb::LocustDB;
 use vharness::*;
 
 // ------------------------------------------------------------------------------------------------
-// Gate: parks the first thread that reaches the armed label until released.
+// Gate: several armed labels; the first thread that reaches an armed label parks there until released.
+struct Slot {
+    label: String,
+    /// how many threads to park here (the held query: one per worker, so that EVERY partition of its snapshot is
+    /// looked at only after the release — which worker carries which partition is up to the scheduler)
+    capacity: usize,
+    fired: usize,
+    parked: usize,
+    release: bool,
+}
 #[derive(Default)]
 struct GateState {
-    target: Option<String>,
-    fired: bool,
-    parked: bool,
-    release: bool,
+    slots: Vec<Slot>,
+    tracing: bool,
     trace: Vec<String>,
 }
 struct Gate {
@@ -41,46 +58,67 @@ fn gate() -> &'static Arc<Gate> {
 impl Gate {
     fn on_label(&self, label: &str) {
         let mut g = self.st.lock().unwrap();
-        if g.target.is_none() { return; }
-        if g.trace.len() < 400 && !label.starts_with("cols:") && !label.starts_with("load:") { g.trace.push(label.to_string()); }
-        if !g.fired && g.target.as_deref() == Some(label) {
-            g.fired = true;
-            g.parked = true;
+        if !g.tracing { return; }
+        if g.trace.len() < 600 && !label.starts_with("cols:") && !label.starts_with("load:") { g.trace.push(label.to_string()); }
+        if let Some(i) = g.slots.iter().position(|s| s.fired < s.capacity && !s.release && s.label == label) {
+            g.slots[i].fired += 1;
+            g.slots[i].parked += 1;
             self.cv.notify_all();
-            while !g.release { g = self.cv.wait(g).unwrap(); }
-            g.parked = false;
+            while !g.slots.get(i).map(|s| s.release).unwrap_or(true) { g = self.cv.wait(g).unwrap(); }
+            if let Some(s) = g.slots.get_mut(i) { s.parked -= 1; }
             self.cv.notify_all();
         }
     }
-    fn arm(&self, label: &str) {
+    fn reset(&self) {
         let mut g = self.st.lock().unwrap();
-        *g = GateState { target: Some(label.to_string()), ..GateState::default() };
+        for s in g.slots.iter_mut() { s.release = true; }
+        self.cv.notify_all();
+        *g = GateState { slots: vec![], tracing: true, trace: vec![] };
     }
-    fn disarm(&self) -> Vec<String> {
+    /// returns the slot index
+    fn arm(&self, label: &str) -> usize { self.arm_n(label, 1) }
+    fn arm_n(&self, label: &str, capacity: usize) -> usize {
         let mut g = self.st.lock().unwrap();
-        g.release = true;
-        g.target = None;
+        g.slots.push(Slot { label: label.to_string(), capacity, fired: 0, parked: 0, release: false });
+        g.slots.len() - 1
+    }
+    fn clear_trace(&self) { self.st.lock().unwrap().trace.clear(); }
+    /// all the threads the slot waits for are parked
+    fn is_parked(&self, i: usize) -> bool { let g = self.st.lock().unwrap(); g.slots[i].parked >= g.slots[i].capacity }
+    fn release(&self, i: usize) {
+        let mut g = self.st.lock().unwrap();
+        if let Some(s) = g.slots.get_mut(i) { s.release = true; }
+        self.cv.notify_all();
+    }
+    fn finish(&self) -> Vec<String> {
+        let mut g = self.st.lock().unwrap();
+        for s in g.slots.iter_mut() { s.release = true; }
+        g.tracing = false;
         self.cv.notify_all();
         std::mem::take(&mut g.trace)
     }
-    fn wait_parked(&self, ms: u64) -> bool {
-        let g = self.st.lock().unwrap();
-        let (g, _) = self.cv.wait_timeout_while(g, Duration::from_millis(ms), |g| !g.parked).unwrap();
-        g.parked
-    }
-    fn release(&self) {
-        let mut g = self.st.lock().unwrap();
-        g.release = true;
-        self.cv.notify_all();
+}
+
+/// Wait until slot `i` is parked, or `done` reports that the operation that should reach it finished. true = parked.
+fn wait_parked_or_done(i: usize, secs: u64, mut done: impl FnMut() -> bool) -> bool {
+    let t0 = Instant::now();
+    loop {
+        if gate().is_parked(i) { return true; }
+        if done() { return gate().is_parked(i); }
+        if t0.elapsed() > Duration::from_secs(secs) { return false; }
+        std::thread::sleep(Duration::from_millis(2));
     }
 }
 
 // ------------------------------------------------------------------------------------------------
 const T: &str = "t";
+const U: &str = "u";
+/// generous: the machine is shared; nothing in a healthy run comes near it
+const DL: u64 = 40;
 
 /// batch `b` with `n` rows: bid = b, idx = 0..n, val = 1000*b + idx, tag = "g<b%3>"; `extra` adds a column
 /// only this batch has (so other partitions lack it).
-fn mk_batch(b: i64, n: usize, extra: bool) -> Batch {
+fn mk_batch(table: &str, b: i64, n: usize, extra: bool) -> Batch {
     let mut cols = vec![
         ("bid".to_string(), ColRep::I64(vec![b; n])),
         ("idx".to_string(), ColRep::I64((0..n as i64).collect())),
@@ -88,7 +126,13 @@ fn mk_batch(b: i64, n: usize, extra: bool) -> Batch {
         ("tag".to_string(), ColRep::Str((0..n).map(|_| format!("g{}", b % 3)).collect())),
     ];
     if extra { cols.push(("xtr".to_string(), ColRep::I64(vec![7; n]))); }
-    Batch { table: T.into(), len: n as u64, cols }
+    Batch { table: table.into(), len: n as u64, cols }
+}
+
+fn request(b: i64, n: usize, extra: bool, two: bool) -> Vec<Batch> {
+    let mut v = vec![mk_batch(T, b, n, extra)];
+    if two { v.push(mk_batch(U, b, n + 1, false)); }
+    v
 }
 
 fn canon(out: &QOut, qkind: &str) -> String {
@@ -118,19 +162,27 @@ fn canon(out: &QOut, qkind: &str) -> String {
     }
 }
 
-fn sql_for(qkind: &str) -> &'static str {
+fn sql_for(qkind: &str, table: &str) -> String {
     match qkind {
-        "present" => "SELECT bid, idx, val FROM t",
-        "absent" => "SELECT bid, idx, nosuch FROM t",
-        "extra" => "SELECT bid, idx, xtr FROM t",
-        _ => "SELECT * FROM t",
+        "present" => format!("SELECT bid, idx, val FROM {}", table),
+        "absent" => format!("SELECT bid, idx, nosuch FROM {}", table),
+        "extra" => format!("SELECT bid, idx, xtr FROM {}", table),
+        _ => format!("SELECT * FROM {}", table),
     }
 }
 
 fn run_q(db: &Arc<LocustDB>, qkind: &str, secs: u64) -> (String, String) {
-    let out = query_full(db, sql_for(qkind), true, secs);
+    let out = query_full(db, &sql_for(qkind, T), true, secs);
     (canon(&out, qkind), out.detail())
 }
+
+fn is_ok(res: &str) -> bool { res.starts_with("ok:") }
+
+fn tmp_root() -> std::path::PathBuf {
+    let shm = std::path::Path::new("/dev/shm");
+    if shm.is_dir() { shm.to_path_buf() } else { std::env::temp_dir() }
+}
+fn new_tmp() -> tempfile::TempDir { tempfile::Builder::new().prefix("c10-").tempdir_in(tmp_root()).unwrap() }
 
 fn opts(dir: Option<&std::path::Path>, threads: usize, cf: u64) -> vharness::locustdb::Options {
     let mut o = match dir { Some(d) => disk_options(d), None => base_options() };
@@ -141,109 +193,267 @@ fn opts(dir: Option<&std::path::Path>, threads: usize, cf: u64) -> vharness::loc
 
 pub const FLUSH_LABELS: &[&str] = &[
     "flush:freeze:before", "flush:freeze:after", "flush:batch:after:t", "flush:handles:after:t", "flush:batching:done",
-    "flush:persist:after", "flush:compact:swap:before:t", "flush:compact:swap:after:t", "flush:compact:prepare:after:t",
-    "flush:compaction:done", "flush:meta:after", "flush:gc:partitions:after", "flush:gc:wal:after",
+    "flush:persist:files:t", "flush:persist:after", "flush:compact:swap:before:t", "flush:compact:swap:after:t", "flush:compact:files:t",
+    "flush:compact:prepare:after:t", "flush:compaction:done", "flush:meta:after", "flush:gc:partitions:after", "flush:gc:wal:after",
 ];
+const STORAGE_ONLY: &[&str] = &["flush:persist:files:t", "flush:compact:files:t", "flush:meta:after", "flush:gc:partitions:after", "flush:gc:wal:after",
+    "flush:persist:files:u", "flush:compact:files:u"];
 
+#[derive(Clone, Debug)]
 struct Placement {
+    hold: bool,
+    /// `place`: the label the flush / ingestion is parked at. `hold`: the label the flush is parked at while the
+    /// held query is released (`done` = the flush ran to completion first).
     label: String,
     disk: bool,
     evict: bool,
+    restart: bool,
     cf: u64,
     pre: Vec<usize>,
     buf: Vec<usize>,
-    qkind: String,
-    ing2: Option<usize>,
     /// first batch of `buf` carries the extra column (so the fresh partition has it and older ones lack it)
     extra_in_buf: bool,
+    two: bool,
+    mid_evict: bool,
+    qkind: String,
+    ing2: Option<usize>,
 }
 
 fn sizes(v: &[usize]) -> String { fmt_list(v) }
 
-fn run_placement(p: &Placement, cases: &mut Cases, verbose: bool) {
-    let tmp = if p.disk { Some(tempfile::tempdir().unwrap()) } else { None };
-    let db = Arc::new(LocustDB::new(&opts(tmp.as_ref().map(|d| d.path()), 2, p.cf)));
-    let mut next_b = 1i64; // (batch 0 would encode `val` without an offset and be smaller: sizes steer compaction)
-    // history: every `pre` batch flushed into its own partition (compaction may already merge some)
-    let mut setup_ok = true;
+/// number of distinct partitions of table `t` that fed a compaction, from `compact:input:t:<col>:<part>:…` labels
+fn compacted_parts(trace: &[String]) -> usize {
+    let mut ids = BTreeSet::new();
+    for l in trace {
+        let f: Vec<&str> = l.split(':').collect();
+        if f.len() >= 5 && f[0] == "compact" && f[1] == "input" && f[2] == T { ids.insert(f[4].to_string()); }
+    }
+    ids.len()
+}
+
+struct Outcome {
+    line: String,
+    impl_out: String,
+    class: String,
+    note: String,
+    trace: Vec<String>,
+    suspicious_hang: bool,
+}
+
+/// history: every `pre` batch flushed into its own partition (compaction may already merge some); optional restart
+/// (all partitions restored non-resident); the `buf` batches stay in the open buffer; optional eviction.
+fn setup(p: &Placement, tmp: &Option<tempfile::TempDir>, next_b: &mut i64) -> Option<Arc<LocustDB>> {
+    let dir = tmp.as_ref().map(|d| d.path().to_path_buf());
+    let o = opts(dir.as_deref(), 2, p.cf);
+    let mut db = Arc::new(LocustDB::new(&o));
     for n in &p.pre {
-        ingest(&db, &[mk_batch(next_b, *n, false)]);
-        next_b += 1;
+        ingest(&db, &request(*next_b, *n, false, p.two));
+        *next_b += 1;
         let d = db.clone();
-        if with_deadline(20, move || d.force_flush()).is_none() { setup_ok = false; break; }
+        with_deadline(DL, move || d.force_flush())?.ok()?;
+    }
+    if p.restart && p.disk {
+        drop(db);
+        std::thread::sleep(Duration::from_millis(30));
+        let o2 = o.clone();
+        db = with_deadline(DL, move || Arc::new(LocustDB::new(&o2)))?.ok()?;
     }
     for (k, n) in p.buf.iter().enumerate() {
-        ingest(&db, &[mk_batch(next_b, *n, p.extra_in_buf && k == 0)]);
-        next_b += 1;
+        ingest(&db, &request(*next_b, *n, p.extra_in_buf && k == 0, p.two));
+        *next_b += 1;
     }
     if p.evict && p.disk { db.evict_cache(); }
+    Some(db)
+}
+
+fn run_place(p: &Placement) -> Outcome {
+    gate().reset();
+    let tmp = if p.disk { Some(new_tmp()) } else { None };
+    let mut next_b = 1i64; // (batch 0 would encode `val` without an offset and be smaller: sizes steer compaction)
+    let db = setup(p, &tmp, &mut next_b);
+    let setup_ok = db.is_some();
+    let db = db.unwrap_or_else(|| Arc::new(LocustDB::new(&opts(None, 2, p.cf))));
     let is_ingest_label = p.label.starts_with("ingest:");
-    gate().arm(&p.label);
+    gate().clear_trace(); // `comp` counts the compaction of the parked flush only
+    let slot = gate().arm(&p.label);
     // the parked operation
     let d = db.clone();
     let ing_parked = p.ing2.unwrap_or(2);
     let parked_b = next_b;
+    let two = p.two;
     let (ptx, prx) = std::sync::mpsc::channel();
     std::thread::spawn(move || {
         let r = std::panic::catch_unwind(std::panic::AssertUnwindSafe(|| {
-            if is_ingest_label { ingest(&d, &[mk_batch(parked_b, ing_parked, false)]); } else { d.force_flush(); }
+            if is_ingest_label { ingest(&d, &request(parked_b, ing_parked, false, two)); } else { d.force_flush(); }
         }));
         let _ = ptx.send(r.is_ok());
     });
     if is_ingest_label { next_b += 1; }
-    let hit = setup_ok && gate().wait_parked(4000);
+    let mut early: Option<bool> = None;
+    let hit = setup_ok && wait_parked_or_done(slot, DL, || { if early.is_none() { early = prx.try_recv().ok(); } early.is_some() });
     let mut q1 = ("_".to_string(), String::new());
     let mut i2 = "_".to_string();
     let mut q2 = ("_".to_string(), String::new());
-    if hit {
-        q1 = run_q(&db, &p.qkind, 6);
+    let inner = p.label.contains(":taken:") || p.label.contains(":swap:mid:");
+    if hit && inner {
+        // parked INSIDE a critical section (lock held): the query must block until the step is over
+        let (qtx, qrx) = std::sync::mpsc::channel();
+        let (d, k) = (db.clone(), p.qkind.clone());
+        std::thread::spawn(move || { let _ = qtx.send(run_q(&d, &k, 3 * DL)); });
+        match qrx.recv_timeout(Duration::from_millis(1500)) {
+            Ok(r) => q1 = r,
+            Err(_) => {
+                q1 = ("blocked".to_string(), String::new());
+                gate().release(slot);
+                q2 = qrx.recv_timeout(Duration::from_secs(DL)).unwrap_or(("hang".into(), String::new()));
+            }
+        }
+    } else if hit {
+        if p.mid_evict && p.disk { db.evict_cache(); }
+        q1 = run_q(&db, &p.qkind, DL);
         if is_ingest_label {
             // a flush started now must wait for the ingestion lock: it may not complete while the ingestion is parked
             let d = db.clone();
             let (ftx, frx) = std::sync::mpsc::channel();
             std::thread::spawn(move || { d.force_flush(); let _ = ftx.send(()); });
-            i2 = if frx.recv_timeout(Duration::from_millis(700)).is_ok() { "flushed".into() } else { "blocked".into() };
-            q2 = run_q(&db, &p.qkind, 6);
-            gate().release();
-            let _ = frx.recv_timeout(Duration::from_secs(15));
-        } else if let Some(n) = p.ing2 {
+            i2 = if frx.recv_timeout(Duration::from_millis(1500)).is_ok() { "flushed".into() } else { "blocked".into() };
+            q2 = run_q(&db, &p.qkind, DL);
+            gate().release(slot);
+            let _ = frx.recv_timeout(Duration::from_secs(DL));
+        } else if let (Some(n), true) = (p.ing2, is_ok(&q1.0)) {
+            // (after a failed query the worker pool is in a state that belongs to C11: nothing more is learnt here)
             let d = db.clone();
-            let b = mk_batch(next_b, n, false);
-            next_b += 1;
-            i2 = match with_deadline(6, move || ingest(&d, &[b])) { Some(Ok(())) => "ok".into(), Some(Err(_)) => "panic".into(), None => "hang".into() };
-            q2 = run_q(&db, &p.qkind, 6);
+            let req = request(next_b, n, false, p.two);
+            i2 = match with_deadline(DL, move || ingest(&d, &req)) { Some(Ok(())) => "ok".into(), Some(Err(_)) => "panic".into(), None => "hang".into() };
+            q2 = run_q(&db, &p.qkind, DL);
         }
     }
-    gate().release();
-    let fl = match prx.recv_timeout(Duration::from_secs(if hit { 5 } else { 10 })) { Ok(true) => "ok", Ok(false) => "panic", Err(_) => "hang" };
-    let trace = gate().disarm();
-    let fin = if fl == "ok" { run_q(&db, "present", 10) } else { run_q(&db, "present", 4) };
+    gate().release(slot);
+    let faulted = hit && ((!is_ok(&q1.0) && q1.0 != "blocked") || (q2.0 != "_" && !is_ok(&q2.0)));
+    let fl = match early {
+        Some(ok) => if ok { "ok" } else { "panic" },
+        None => match prx.recv_timeout(Duration::from_secs(if faulted { 6 } else { DL })) { Ok(true) => "ok", Ok(false) => "panic", Err(_) => "hang" },
+    };
+    let trace = gate().finish();
+    let fin = run_q(&db, "present", if faulted || fl != "ok" { 4 } else { DL });
+    let comp = compacted_parts(&trace);
+    let st = if p.disk { "disk" } else { "mem" };
     let line = format!(
-        "place {} {} ev={} cf={} pre={} buf={} x={} q={} ing2={} hit={} q1={} i2={} q2={} fl={} fin={}",
-        p.label, if p.disk { "disk" } else { "mem" }, p.evict as u8, p.cf, sizes(&p.pre), sizes(&p.buf), p.extra_in_buf as u8, p.qkind,
-        p.ing2.map(|n| n.to_string()).unwrap_or("_".into()), hit as u8, q1.0, i2, q2.0, fl, fin.0);
+        "place {} st={} ev={} cf={} pre={} buf={} x={} two={} mid={} q={} ing2={} comp={} hit={} q1={} i2={} q2={} fl={} fin={}",
+        p.label, st, p.evict as u8, p.cf, sizes(&p.pre), sizes(&p.buf), p.extra_in_buf as u8, p.two as u8, if p.mid_evict { "evict" } else { "_" },
+        p.qkind, p.ing2.map(|n| n.to_string()).unwrap_or("_".into()), comp, hit as u8, q1.0, i2, q2.0, fl, fin.0);
     let impl_out = format!("q1={} i2={} q2={} fl={} fin={}", q1.0, i2, q2.0, fl, fin.0);
-    let class = format!("{}|{}|{}{}|{}", p.label, p.qkind, if p.disk { "disk" } else { "mem" }, if p.evict { "+ev" } else { "" }, if hit { "hit" } else { "nothit" });
+    let class = format!("{}|{}|{}{}{}{}|{}", p.label, p.qkind, st, if p.evict { "+ev" } else { "" }, if p.mid_evict { "+midev" } else { "" },
+        if p.two { "+two" } else { "" }, if hit { "hit" } else { "nothit" });
     let note = format!("{} {} {}", q1.1, q2.1, fin.1);
-    if verbose { eprintln!("{}\n    trace={:?}\n    {}", line, trace.iter().filter(|l| l.ends_with(":t") || !l.contains(":_meta")).collect::<Vec<_>>(), note); }
-    cases.push(&class, &line, &impl_out, note.trim());
-    if fl != "ok" { std::mem::forget(db); std::mem::forget(tmp); }
+    let suspicious_hang = !faulted && (q1.0 == "hang" || q2.0 == "hang" || i2 == "hang" || fl == "hang" || fin.0 == "hang" || !hit);
+    if fl != "ok" || faulted { std::mem::forget(db); std::mem::forget(tmp); }
+    Outcome { line, impl_out, class, note: note.trim().to_string(), trace, suspicious_hang }
+}
+
+fn run_hold(p: &Placement) -> Outcome {
+    gate().reset();
+    let tmp = if p.disk { Some(new_tmp()) } else { None };
+    let mut next_b = 1i64;
+    let db = setup(p, &tmp, &mut next_b);
+    let setup_ok = db.is_some();
+    let db = db.unwrap_or_else(|| Arc::new(LocustDB::new(&opts(None, 2, p.cf))));
+    gate().clear_trace();
+    // the held query: parks in its first get_cols on table t, i.e. right after Table::snapshot
+    // (2 worker threads, at least 2 partitions in the snapshot: both workers park, each holding one partition)
+    let qslot = gate().arm_n("cols:enter:t", 2);
+    let (qtx, qrx) = std::sync::mpsc::channel();
+    {
+        let (d, k) = (db.clone(), p.qkind.clone());
+        std::thread::spawn(move || { let _ = qtx.send(run_q(&d, &k, 4 * DL)); });
+    }
+    let mut qres: Option<(String, String)> = None;
+    let held = setup_ok && wait_parked_or_done(qslot, DL, || { if qres.is_none() { qres = qrx.try_recv().ok(); } qres.is_some() });
+    // the flush that runs underneath the held query; `mid=evict`: the cache is evicted while the flush is parked right
+    // before the compaction swap (the old partitions are still registered, compaction has just re-read them)
+    let eslot = if p.mid_evict { Some(gate().arm("flush:compact:swap:before:t")) } else { None };
+    let fslot = if p.label != "done" { Some(gate().arm(&p.label)) } else { None };
+    let (ftx, frx) = std::sync::mpsc::channel();
+    {
+        let d = db.clone();
+        std::thread::spawn(move || {
+            let r = std::panic::catch_unwind(std::panic::AssertUnwindSafe(|| d.force_flush()));
+            let _ = ftx.send(r.is_ok());
+        });
+    }
+    let mut fdone: Option<bool> = None;
+    let mut hit = held;
+    if let (true, Some(e)) = (held, eslot) {
+        if wait_parked_or_done(e, DL, || { if fdone.is_none() { fdone = frx.try_recv().ok(); } fdone.is_some() }) { db.evict_cache(); } else { hit = false; }
+        gate().release(e);
+    }
+    if held && hit {
+        match fslot {
+            Some(s) => { hit = wait_parked_or_done(s, DL, || { if fdone.is_none() { fdone = frx.try_recv().ok(); } fdone.is_some() }); }
+            None => { fdone = frx.recv_timeout(Duration::from_secs(DL)).ok(); hit = fdone == Some(true); }
+        }
+    }
+    gate().release(qslot);
+    let qh = match qres { Some(r) => r, None => qrx.recv_timeout(Duration::from_secs(DL)).unwrap_or(("hang".into(), String::new())) };
+    if let Some(s) = fslot { gate().release(s); }
+    let faulted = !is_ok(&qh.0);
+    let fl = match fdone {
+        Some(ok) => if ok { "ok" } else { "panic" },
+        None => match frx.recv_timeout(Duration::from_secs(if faulted { 6 } else { DL })) { Ok(true) => "ok", Ok(false) => "panic", Err(_) => "hang" },
+    };
+    let trace = gate().finish();
+    let fin = run_q(&db, "present", if faulted || fl != "ok" { 4 } else { DL });
+    let comp = compacted_parts(&trace);
+    let line = format!(
+        "hold {} st={} ev={} rs={} cf={} pre={} buf={} x={} mid={} q={} comp={} hit={} qh={} fl={} fin={}",
+        p.label, if p.disk { "disk" } else { "mem" }, p.evict as u8, p.restart as u8, p.cf, sizes(&p.pre), sizes(&p.buf), p.extra_in_buf as u8,
+        if p.mid_evict { "evict" } else { "_" }, p.qkind, comp, hit as u8, qh.0, fl, fin.0);
+    let impl_out = format!("qh={} fl={} fin={}", qh.0, fl, fin.0);
+    let class = format!("hold:{}|{}|{}{}{}{}|{}", p.label, p.qkind, if p.disk { "disk" } else { "mem" }, if p.evict { "+ev" } else { "" }, if p.restart { "+restart" } else { "" },
+        if p.mid_evict { "+midev" } else { "" }, if hit { "hit" } else { "nothit" });
+    let note = format!("{} {}", qh.1, fin.1);
+    let suspicious_hang = !faulted && (fl == "hang" || fin.0 == "hang" || !hit);
+    if fl != "ok" || faulted { std::mem::forget(db); std::mem::forget(tmp); }
+    Outcome { line, impl_out, class, note: note.trim().to_string(), trace, suspicious_hang }
+}
+
+fn run_placement(p: &Placement, cases: &mut Cases, verbose: bool) {
+    let run = |p: &Placement| if p.hold { run_hold(p) } else { run_place(p) };
+    let mut o = run(p);
+    if o.suspicious_hang {
+        // an unexplained hang / unreached label on a loaded machine: believe it only if it happens twice
+        let o2 = run(p);
+        let first = std::mem::replace(&mut o, o2);
+        o.note = format!("{} [rerun after: {}]", o.note, first.impl_out);
+    }
+    if verbose { eprintln!("{}\n    trace={:?}\n    {}", o.line, o.trace.iter().filter(|l| !l.contains("_meta")).collect::<Vec<_>>(), o.note); }
+    cases.push(&o.class, &o.line, &o.impl_out, &o.note);
 }
 
 // ------------------------------------------------------------------------------------------------
-// Stress: batches are identified by (ingester k, sequence j): bid = k * 1_000_000 + j.
-fn run_stress(seed: u64, threads: usize, ningest: usize, nquery: usize, millis: u64, disk: bool, cases: &mut Cases) {
-    let tmp = if disk { Some(tempfile::tempdir().unwrap()) } else { None };
+// Stress: batches are identified by (ingester k, sequence j): bid = (k << 40) + j. Every request also carries a
+// share for table u (one row more); queries go to t or u.
+// (The ids are this wide on purpose: `bid` and `val` then need the I64 encoding. With narrower ids the columns become
+// lz4-compressed u16/u32 sections once a partition has a few dozen rows, and compaction runs into the OPEN C07 findings
+// compaction-decode-lz4-narrow-type — flush pool panics, flush hangs — which are not this property's business.)
+const KSHIFT: i64 = 1 << 40;
+const SEED_BID: i64 = 7 * KSHIFT;
+/// `rough` = evictions + all query kinds (on a disk-backed database this can run into the open finding
+/// c10-uncatalogued-partition-lookup); `clean` = no eviction, queries only for columns every partition has.
+fn run_stress(seed: u64, threads: usize, ningest: usize, nquery: usize, millis: u64, disk: bool, rough: bool, cases: &mut Cases) {
+    gate().reset();
+    gate().finish();
+    let tmp = if disk { Some(new_tmp()) } else { None };
     let db = Arc::new(LocustDB::new(&opts(tmp.as_ref().map(|d| d.path()), threads, 3)));
     let stop = Arc::new(AtomicBool::new(false));
     // acked[k] = number of batches of ingester k acknowledged (ingest call returned)
     let acked: Arc<Vec<AtomicU64>> = Arc::new((0..ningest).map(|_| AtomicU64::new(0)).collect());
     let lens: Arc<Mutex<BTreeMap<i64, usize>>> = Arc::new(Mutex::new(BTreeMap::new()));
     let mut handles = vec![];
-    // seed table so that it exists
+    // seed tables so that they exist
     {
-        lens.lock().unwrap().insert(999_000_000, 1);
-        ingest(&db, &[mk_batch(999_000_000, 1, false)]);
+        lens.lock().unwrap().insert(SEED_BID, 1);
+        ingest(&db, &request(SEED_BID, 1, false, true));
     }
     for k in 0..ningest {
         let (db, stop, acked, lens) = (db.clone(), stop.clone(), acked.clone(), lens.clone());
@@ -252,9 +462,9 @@ fn run_stress(seed: u64, threads: usize, ningest: usize, nquery: usize, millis: 
             let mut j = 0u64;
             while !stop.load(Ordering::SeqCst) && j < 4000 {
                 let n = 1 + rng.below(5) as usize;
-                let bid = (k as i64) * 1_000_000 + j as i64;
+                let bid = (k as i64) * KSHIFT + j as i64;
                 lens.lock().unwrap().insert(bid, n);
-                ingest(&db, &[mk_batch(bid, n, rng.chance(1, 8))]);
+                ingest(&db, &request(bid, n, rough && rng.chance(1, 8), true));
                 j += 1;
                 acked[k].store(j, Ordering::SeqCst);
                 if rng.chance(1, 3) { std::thread::sleep(Duration::from_micros(200 + rng.below(2000))); }
@@ -268,142 +478,307 @@ fn run_stress(seed: u64, threads: usize, ningest: usize, nquery: usize, millis: 
         handles.push(std::thread::spawn(move || {
             while !stop.load(Ordering::SeqCst) {
                 let d = db.clone();
-                if with_deadline(20, move || d.force_flush()).is_none() { flush_ok.store(false, Ordering::SeqCst); return; }
-                if disk && rng.chance(1, 3) { db.evict_cache(); }
+                if with_deadline(DL, move || d.force_flush()).is_none() { flush_ok.store(false, Ordering::SeqCst); return; }
+                if disk && rough && rng.chance(1, 3) { db.evict_cache(); }
                 std::thread::sleep(Duration::from_millis(3 + rng.below(25)));
             }
         }));
     }
     let bad: Arc<Mutex<Vec<String>>> = Arc::new(Mutex::new(vec![]));
+    let badq = Arc::new(AtomicU64::new(0));
     let nq = Arc::new(AtomicU64::new(0));
     for m in 0..nquery {
-        let (db, stop, acked, lens, bad, nq) = (db.clone(), stop.clone(), acked.clone(), lens.clone(), bad.clone(), nq.clone());
+        let (db, stop, acked, lens, bad, badq, nq) = (db.clone(), stop.clone(), acked.clone(), lens.clone(), bad.clone(), badq.clone(), nq.clone());
         let mut rng = Rng::new(seed ^ (0xABC0 + m as u64));
         handles.push(std::thread::spawn(move || {
             while !stop.load(Ordering::SeqCst) {
                 let before: Vec<u64> = acked.iter().map(|a| a.load(Ordering::SeqCst)).collect();
-                let qkind = *rng.pick(&["present", "present", "star", "absent", "extra"]);
-                let out = query_full(&db, sql_for(qkind), true, 15);
+                let qkind = if rough { *rng.pick(&["present", "present", "star", "absent", "extra"]) } else { "present" };
+                let table = if rng.chance(1, 3) { U } else { T };
+                let out = query_full(&db, &sql_for(qkind, table), true, DL);
                 nq.fetch_add(1, Ordering::SeqCst);
-                let verdict = judge_stress(&out, &before, &lens.lock().unwrap(), ningest);
-                if let Some(v) = verdict { bad.lock().unwrap().push(format!("{}:{}", qkind, v)); }
+                let verdict = judge_stress(&out, &before, &lens.lock().unwrap(), ningest, table == U);
+                if let Some(v) = verdict {
+                    if v.starts_with("err:") || v == "panic" || v == "hang" { badq.fetch_add(1, Ordering::SeqCst); }
+                    bad.lock().unwrap().push(format!("{}:{}:{}", table, qkind, v));
+                    // a failed query has killed a worker (C11): everything after it would only measure that
+                    if v.starts_with("err:") || v == "panic" || v == "hang" { stop.store(true, Ordering::SeqCst); }
+                }
                 if rng.chance(1, 2) { std::thread::sleep(Duration::from_micros(rng.below(1500))); }
             }
         }));
     }
-    std::thread::sleep(Duration::from_millis(millis));
+    let t0 = Instant::now();
+    while t0.elapsed() < Duration::from_millis(millis) && !stop.load(Ordering::SeqCst) { std::thread::sleep(Duration::from_millis(10)); }
     stop.store(true, Ordering::SeqCst);
     let t0 = Instant::now();
-    for h in handles { while !h.is_finished() && t0.elapsed() < Duration::from_secs(30) { std::thread::sleep(Duration::from_millis(5)); } }
+    for h in handles { while !h.is_finished() && t0.elapsed() < Duration::from_secs(2 * DL) { std::thread::sleep(Duration::from_millis(5)); } }
+    let failed_q = badq.load(Ordering::SeqCst) > 0;
+    // a failed query is re-issued once on the now quiescent database (nothing has been flushed since): the same failure
+    // again = it depends on the data layout the concurrent activity left behind, not on the overlap itself
+    let again = if failed_q {
+        let first = bad.lock().unwrap().iter().find(|b| b.contains(":err:") || b.ends_with(":panic") || b.ends_with(":hang")).cloned().unwrap_or_default();
+        let f: Vec<&str> = first.split(':').collect();
+        if f.len() >= 2 { let out = query_full(&db, &sql_for(f[1], f[0]), true, 10); match out { QOut::Ok { .. } => "ok".to_string(), o => o.tok() } } else { "_".into() }
+    } else { "_".into() };
     let d = db.clone();
-    let fl = flush_ok.load(Ordering::SeqCst) && with_deadline(20, move || d.force_flush()).is_some();
+    let fl = flush_ok.load(Ordering::SeqCst) && with_deadline(if failed_q { 12 } else { DL }, move || d.force_flush()).is_some();
     // final: everything acknowledged is there exactly once
     let total: Vec<u64> = acked.iter().map(|a| a.load(Ordering::SeqCst)).collect();
-    let out = query_full(&db, sql_for("present"), true, 20);
-    let fin = match judge_stress(&out, &total, &lens.lock().unwrap(), ningest) {
+    let out = query_full(&db, &sql_for("present", T), true, if failed_q { 8 } else { DL });
+    let lens_final = lens.lock().unwrap().clone();
+    let fin = match judge_stress(&out, &total, &lens_final, ningest, false) {
         None => { // and nothing beyond the acknowledged
-            let want: usize = lens.lock().unwrap().iter().filter(|(b, _)| **b == 999_000_000 || ((**b % 1_000_000) as u64) < total[(**b / 1_000_000) as usize]).map(|(_, n)| *n).sum();
+            let want: usize = lens_final.iter().filter(|(b, _)| **b == SEED_BID || ((**b % KSHIFT) as u64) < total[(**b / KSHIFT) as usize]).map(|(_, n)| *n).sum();
             let got = out.rows().map(|r| r.len()).unwrap_or(0);
             if got == want { "ok".to_string() } else { format!("bad:count{}vs{}", got, want) }
         }
         Some(v) => format!("bad:{}", v),
     };
     let bad = bad.lock().unwrap();
-    let line = format!("stress {} {} {} {} nq={} bad={} first={} fl={} fin={}", threads, ningest, nquery, if disk { "disk" } else { "mem" },
-        nq.load(Ordering::SeqCst), bad.len(), bad.first().cloned().unwrap_or("_".into()).replace(' ', "_"), if fl { "ok" } else { "hang" }, fin);
+    let st = if disk { "disk" } else { "mem" };
+    let mode = if rough { "rough" } else { "clean" };
+    let line = format!("stress th={} in={} qr={} st={} mode={} nq={} bad={} badq={} first={} fl={} fin={}", threads, ningest, nquery, st, mode,
+        nq.load(Ordering::SeqCst), bad.len(), badq.load(Ordering::SeqCst), bad.first().cloned().unwrap_or("_".into()).replace(' ', "_"), if fl { "ok" } else { "hang" }, fin);
     let impl_out = format!("bad={} fl={} fin={}", bad.len(), if fl { "ok" } else { "hang" }, fin);
-    cases.push(&format!("stress|{}w|{}i|{}q|{}", threads, ningest, nquery, if disk { "disk" } else { "mem" }), &line, &impl_out, &format!("seed={} batches={:?}", seed, total));
-    if !fl { std::mem::forget(db); std::mem::forget(tmp); }
+    cases.push(&format!("stress|{}w|{}i|{}q|{}|{}", threads, ningest, nquery, st, mode), &line, &impl_out, &format!("seed={} batches={:?} again={}", seed, total, again));
+    if !fl || failed_q { std::mem::forget(db); std::mem::forget(tmp); }
 }
 
 /// None = fine. The result must consist of whole batches, contain every batch acknowledged before the query
 /// began, and per ingester the batch numbers present must be exactly 0..k (a prefix of its history).
-fn judge_stress(out: &QOut, before: &[u64], lens: &BTreeMap<i64, usize>, ningest: usize) -> Option<String> {
+fn judge_stress(out: &QOut, before: &[u64], lens: &BTreeMap<i64, usize>, ningest: usize, table_u: bool) -> Option<String> {
     let (colnames, rows) = match out {
         QOut::Ok { colnames, rows: Some(rows), .. } => (colnames, rows),
         other => return Some(other.tok()),
     };
-    let bi = colnames.iter().position(|c| c == "bid")?;
-    let ii = colnames.iter().position(|c| c == "idx")?;
+    let bi = match colnames.iter().position(|c| c == "bid") { Some(i) => i, None => return Some("nocol:bid".into()) };
+    let ii = match colnames.iter().position(|c| c == "idx") { Some(i) => i, None => return Some("nocol:idx".into()) };
     let mut seen: BTreeMap<i64, BTreeSet<i64>> = BTreeMap::new();
     for r in rows {
         let (b, i) = match (&r[bi], &r[ii]) { (Cell::Int(b), Cell::Int(i)) => (*b, *i), _ => return Some("badcell".into()) };
         if !seen.entry(b).or_default().insert(i) { return Some(format!("dup:{}.{}", b, i)); }
     }
     for (b, idxs) in &seen {
-        let n = match lens.get(b) { Some(n) => *n, None => return Some(format!("unknown-batch:{}", b)) };
+        let n = match lens.get(b) { Some(n) => *n + table_u as usize, None => return Some(format!("unknown-batch:{}", b)) };
         if idxs.len() != n || *idxs.iter().next_back().unwrap() != n as i64 - 1 { return Some(format!("torn:{}:{}of{}", b, idxs.len(), n)); }
     }
-    if !seen.contains_key(&999_000_000) { return Some("missing-seed".into()); }
+    if !seen.contains_key(&SEED_BID) { return Some("missing-seed".into()); }
     for k in 0..ningest {
-        let present: Vec<i64> = seen.keys().filter(|b| **b / 1_000_000 == k as i64).map(|b| b % 1_000_000).collect();
+        let present: Vec<i64> = seen.keys().filter(|b| **b / KSHIFT == k as i64).map(|b| b % KSHIFT).collect();
         for (pos, j) in present.iter().enumerate() { if *j != pos as i64 { return Some(format!("gap:ingester{}:missing{}", k, pos)); } }
         if (present.len() as u64) < before[k] { return Some(format!("lost-acked:ingester{}:{}of{}", k, present.len(), before[k])); }
     }
     None
 }
 
+// ------------------------------------------------------------------------------------------------
+fn pl(label: &str, disk: bool, evict: bool, cf: u64, pre: &[usize], buf: &[usize], x: bool, q: &str, ing2: Option<usize>) -> Placement {
+    Placement { hold: false, label: label.into(), disk, evict, restart: false, cf, pre: pre.to_vec(), buf: buf.to_vec(), extra_in_buf: x, two: false,
+        mid_evict: false, qkind: q.into(), ing2 }
+}
+
+/// Past failures (witnesses of fixed and open findings) — always run, first.
+fn corpus() -> Vec<Placement> {
+    let mut v = vec![];
+    // fixed finding c10-fresh-partition-placeholder (DESIGN §8 #18): placeholder handle / eviction between batch() and the handle read
+    v.push(pl("flush:batch:after:t", false, false, 4, &[1], &[3, 1], false, "absent", None));
+    v.push(Placement { mid_evict: true, ..pl("flush:batch:after:t", true, false, 4, &[1], &[2, 1], false, "absent", None) });
+    // open finding c10-uncatalogued-partition-lookup: merged partition visible before it is catalogued
+    v.push(pl("flush:compact:swap:after:t", true, false, 1, &[1], &[3, 2], false, "absent", Some(2)));
+    // … and (DESIGN §8 #19) a held query whose partitions were compacted away and garbage-collected underneath it:
+    // restored after a restart (no handles yet) + a column they lack; or evicted just before the swap
+    v.push(Placement { hold: true, restart: true, ..pl("done", true, false, 1, &[2], &[1, 2], false, "absent", None) });
+    v.push(Placement { hold: true, mid_evict: true, ..pl("done", true, false, 1, &[2], &[1, 2], false, "present", None) });
+    // (evicted BEFORE the flush is harmless: compaction re-reads — and so re-loads — every column of its inputs)
+    v.push(Placement { hold: true, ..pl("done", true, true, 1, &[2], &[1, 2], false, "present", None) });
+    v
+}
+
 fn main() {
     let args = parse_args();
-    quiet_panics();
+    if std::env::var("C10_LOUD").is_err() { quiet_panics(); }
     let verbose = args.rest.iter().any(|a| a == "--verbose");
     let only: Option<String> = args.rest.iter().position(|a| a == "--only").map(|i| args.rest[i + 1].clone());
     let g = gate().clone();
     vharness::locustdb::verif::set_sync_callback(Some(Box::new(move |l| g.on_label(l))));
     let mut rng = Rng::new(args.seed);
+    if args.rest.iter().any(|a| a == "--probe-star") {
+        // sequential probe (no concurrency at all): the OLD stress workload (narrow ids) replayed by ONE thread
+        let flush_every: i64 = args.rest.iter().position(|a| a == "--flush-every").map(|i| args.rest[i + 1].parse().unwrap()).unwrap_or(0);
+        let db = Arc::new(LocustDB::new(&opts(None, 2, 3)));
+        let mut total = 0;
+        ingest(&db, &request(999_000_000, 1, false, true));
+        total += 1;
+        let mut js = [0i64; 3];
+        for step in 0..1500i64 {
+            let k = rng.below(3) as usize;
+            let n = 1 + rng.below(5) as usize;
+            total += n;
+            ingest(&db, &request(k as i64 * 1_000_000 + js[k], n, rng.chance(1, 8), true));
+            js[k] += 1;
+            if flush_every > 0 && step % flush_every == flush_every - 1 { db.force_flush(); }
+            if total > 700 && step % 12 == 0 {
+                let r = run_q(&db, "star", DL);
+                if !r.0.starts_with(&format!("ok:{}:", total)) { println!("after step {} ({} rows) star -> {} {}", step, total, &r.0[..r.0.len().min(40)], r.1); std::process::exit(0); }
+            }
+        }
+        println!("probe done");
+        std::process::exit(0);
+    }
     let mut cases = Cases::create(&args.out);
     let t0 = Instant::now();
+    let thorough = args.thorough();
 
     // ---- placements
-    let mut plan: Vec<Placement> = vec![];
+    let mut plan: Vec<Placement> = corpus();
     let qkinds = ["present", "absent", "star", "extra"];
     for label in FLUSH_LABELS {
+        let compaction = label.contains("compact");
+        let storage_only = STORAGE_ONLY.contains(label);
         for (disk, evict) in [(false, false), (true, false), (true, true)] {
-            let compaction = label.contains("compact");
-            let storage_only = ["flush:meta:after", "flush:gc:partitions:after", "flush:gc:wal:after"].contains(label);
             if storage_only && !disk { continue; }
-            for qkind in qkinds {
-                // quick tier: thin out the cross product deterministically by seed
-                if !args.thorough() && !(qkind == "absent" || qkind == "present") && rng.chance(1, 2) { continue; }
+            // quick tier: one query kind per (label, storage) — always `absent` on the plain disk variant (the kind that
+            // creates placeholder handles), a seeded one elsewhere; thorough: all four
+            let kinds: Vec<&str> = if thorough { qkinds.to_vec() } else if disk && !evict { vec!["absent"] } else { vec![*rng.pick(&qkinds)] };
+            if !thorough && disk && evict && !rng.chance(1, 3) { continue; }
+            for qkind in kinds {
                 // cf=1: every flush that leaves >= 2 partitions compacts them; cf=4 with five equal partitions: one 5-way compaction
                 let (cf, pre) = if compaction || rng.chance(1, 2) {
                     if rng.chance(1, 3) { (4u64, vec![2usize, 2, 2, 2]) } else { (1u64, vec![1 + rng.below(3) as usize]) }
                 } else { (4u64, vec![1 + rng.below(3) as usize]) };
                 let five = pre.len() == 4;
                 plan.push(Placement {
-                    label: label.to_string(), disk, evict, cf, pre,
-                    buf: if five { vec![2] } else { vec![1 + rng.below(3) as usize, 1 + rng.below(3) as usize] }, qkind: qkind.to_string(),
+                    buf: if five { vec![2] } else { vec![1 + rng.below(3) as usize, 1 + rng.below(3) as usize] },
                     ing2: if rng.chance(2, 3) { Some(1 + rng.below(3) as usize) } else { None },
-                    extra_in_buf: qkind == "extra" || rng.chance(1, 4),
+                    ..pl(label, disk, evict, cf, &pre, &[], qkind == "extra" || rng.chance(1, 4), qkind, None)
                 });
             }
         }
     }
+    // eviction while the flush is parked (disk only: without storage an evicted column is gone by design)
+    let midev_labels: Vec<&str> = if thorough { FLUSH_LABELS.iter().cloned().filter(|l| *l != "flush:freeze:before").collect() }
+        else { vec!["flush:handles:after:t", "flush:persist:after", "flush:compact:files:t", "flush:compact:prepare:after:t"] };
+    for label in midev_labels {
+        let kinds: Vec<&str> = if thorough { vec!["present", "absent"] } else { vec!["present"] };
+        for q in kinds {
+            plan.push(Placement { mid_evict: true, ..pl(label, true, false, 1, &[2], &[1, 2], false, q, Some(1)) });
+        }
+    }
+    // two tables per request; the flush is parked at a boundary of the OTHER table
+    let two_labels: Vec<&str> = if thorough { vec!["flush:batch:after:u", "flush:handles:after:u", "flush:persist:files:u", "flush:compact:swap:after:u", "flush:compact:files:u", "flush:compact:prepare:after:u", "flush:freeze:after", "flush:batching:done"] }
+        else { vec!["flush:batch:after:u", "flush:compact:swap:after:u"] };
+    for label in two_labels {
+        for disk in [false, true] {
+            if !disk && STORAGE_ONLY.contains(&label) { continue; }
+            if !thorough && !disk { continue; }
+            plan.push(Placement { two: true, ..pl(label, disk, false, 1, &[2], &[1, 2], false, if disk { "absent" } else { "star" }, Some(2)) });
+        }
+    }
+    // labels INSIDE critical sections: the query must block (witness that the lock is held across the step)
+    for label in ["flush:batch:taken:t", "flush:compact:swap:mid:t"] {
+        for disk in [false, true] {
+            if !thorough && (disk != label.contains("compact")) { continue; }
+            plan.push(pl(label, disk, false, 1, &[2], &[1, 2], false, "present", None));
+        }
+    }
     for label in ["ingest:locked", "ingest:done"] {
         for disk in [false, true] {
-            plan.push(Placement { label: label.to_string(), disk, evict: false, cf: 4, pre: vec![2], buf: vec![1, 2], qkind: "present".into(), ing2: Some(2), extra_in_buf: false });
+            if !thorough && disk { continue; }
+            plan.push(pl(label, disk, false, 4, &[2], &[1, 2], false, "present", Some(2)));
         }
     }
-    for p in &plan {
-        if let Some(o) = &only { if !p.label.contains(o.as_str()) { continue; } }
-        run_placement(p, &mut cases, verbose);
+    // held queries (disk): the flush runs underneath a query that already has its snapshot
+    // (evict-before-flush, restart, evict-before-swap, query kind)
+    let uptos: Vec<&str> = if thorough { vec!["done", "flush:persist:after", "flush:compact:swap:after:t", "flush:compact:prepare:after:t", "flush:meta:after", "flush:gc:partitions:after"] }
+        else { vec!["done", "flush:compact:swap:after:t", "flush:compact:prepare:after:t"] };
+    for upto in uptos {
+        let variants: Vec<(bool, bool, bool, &str)> = if thorough {
+            vec![(false, false, false, "present"), (false, false, false, "absent"), (true, false, false, "present"), (true, false, false, "star"), (false, true, false, "present"),
+                 (false, true, false, "absent"), (false, true, false, "extra"), (false, false, true, "present"), (false, false, true, "absent"), (false, true, true, "star")]
+        } else if upto == "done" { vec![(false, false, false, "absent"), (false, true, false, "present")] } else { vec![(false, false, true, "present")] };
+        for (evict, restart, midev, q) in variants {
+            if midev && upto == "flush:persist:after" { continue; }
+            for (cf, pre) in [(1u64, vec![2usize]), (4u64, vec![2usize, 2, 2, 2])] {
+                if !thorough && pre.len() == 4 && !(upto == "done" && restart) { continue; }
+                plan.push(Placement { hold: true, restart, mid_evict: midev, ..pl(upto, true, evict, cf, &pre, &[2], false, q, None) });
+            }
+        }
     }
-    eprintln!("[c10] placements: {} cases in {:.1}s", cases.n, t0.elapsed().as_secs_f64());
+    // a memory-only held query (nothing can be non-resident: must always succeed)
+    plan.push(Placement { hold: true, ..pl("done", false, false, 1, &[2], &[1, 2], true, "extra", None) });
 
-    // ---- stress
-    if only.is_none() || only.as_deref() == Some("stress") {
-        let t1 = Instant::now();
-        let runs: Vec<(usize, usize, usize, bool)> = if args.thorough() {
-            vec![(1, 2, 2, false), (2, 3, 3, false), (4, 3, 4, false), (2, 2, 2, true), (4, 3, 3, true), (1, 1, 1, true), (2, 4, 2, false), (4, 2, 4, true)]
-        } else {
-            vec![(2, 3, 3, false), (4, 2, 3, true), (1, 2, 2, true)]
-        };
-        let millis = if args.thorough() { 6000 } else { 2500 };
-        for (i, (threads, ni, nqr, disk)) in runs.into_iter().enumerate() {
-            run_stress(args.seed.wrapping_mul(1000).wrapping_add(i as u64), threads, ni, nqr, millis, disk, &mut cases);
+    // (threads, ingesters, queriers, disk, rough)
+    let stress_runs: Vec<(usize, usize, usize, bool, bool)> = if thorough {
+        vec![(1, 2, 2, false, true), (2, 3, 3, false, true), (4, 3, 4, false, true), (2, 2, 2, true, false), (4, 3, 3, true, false), (1, 1, 1, true, false),
+             (2, 4, 2, false, true), (4, 2, 4, true, false), (2, 2, 3, true, true), (4, 3, 3, true, true)]
+    } else {
+        vec![(2, 3, 3, false, true), (4, 2, 3, true, false)]
+    };
+    let millis = if thorough { 6000 } else { 2500 };
+
+    // ---- child mode: exactly one case, printed on stdout; the process exit also ends whatever a faulted database left
+    // spinning (a worker that died in `load_column` leaves `load_scheduled` set: later lookups busy-wait forever)
+    if let Some(i) = args.rest.iter().position(|a| a == "--one").map(|i| args.rest[i + 1].parse::<usize>().unwrap()) {
+        if i < plan.len() { run_placement(&plan[i], &mut cases, verbose); }
+        else if let Some((threads, ni, nqr, disk, rough)) = stress_runs.get(i - plan.len()).cloned() {
+            run_stress(args.seed.wrapping_mul(1000).wrapping_add((i - plan.len()) as u64), threads, ni, nqr, millis, disk, rough, &mut cases);
         }
-        eprintln!("[c10] stress: {:.1}s", t1.elapsed().as_secs_f64());
+        cases.finish();
+        std::process::exit(0);
     }
+
+    // ---- parent: every case in its own child process, a few at a time
+    let selected: Vec<usize> = (0..plan.len() + stress_runs.len()).filter(|i| match &only {
+        None => true,
+        Some(o) if o == "stress" => *i >= plan.len(),
+        Some(o) => *i < plan.len() && (plan[*i].label.contains(o.as_str()) || (plan[*i].hold && o == "hold")),
+    }).collect();
+    let jobs: usize = args.rest.iter().position(|a| a == "--jobs").map(|i| args.rest[i + 1].parse().unwrap()).unwrap_or(6);
+    let exe = std::env::current_exe().unwrap();
+    let queue = Arc::new(Mutex::new(selected.clone().into_iter().rev().collect::<Vec<usize>>()));
+    let results: Arc<Mutex<BTreeMap<usize, Vec<String>>>> = Arc::new(Mutex::new(BTreeMap::new()));
+    let mut workers = vec![];
+    for _ in 0..jobs.max(1) {
+        let (queue, results, exe, out, seed, tier, nplan) = (queue.clone(), results.clone(), exe.clone(), args.out.clone(), args.seed, args.tier.clone(), plan.len());
+        workers.push(std::thread::spawn(move || loop {
+            let i = match queue.lock().unwrap().pop() { Some(i) => i, None => return };
+            // stress runs are timing sensitive: wait until the placements are through, then run them one at a time
+            if i >= nplan { while queue.lock().unwrap().iter().any(|j| *j < nplan) { std::thread::sleep(Duration::from_millis(50)); } }
+            let dir = out.join(format!("child{}", i));
+            let mut cmd = std::process::Command::new(&exe);
+            cmd.args(["--seed", &seed.to_string(), "--tier", &tier, "--out", dir.to_str().unwrap(), "--one", &i.to_string()]);
+            if verbose { cmd.arg("--verbose"); }
+            let mut child = cmd.stdout(std::process::Stdio::null()).spawn().unwrap();
+            let t0 = Instant::now();
+            let mut finished = false;
+            while t0.elapsed() < Duration::from_secs(12 * DL) {
+                if child.try_wait().unwrap().is_some() { finished = true; break; }
+                std::thread::sleep(Duration::from_millis(20));
+            }
+            if !finished { let _ = child.kill(); let _ = child.wait(); }
+            let lines: Vec<String> = std::fs::read_to_string(dir.join("cases.tsv")).unwrap_or_default().lines().map(|l| l.to_string()).collect();
+            let _ = std::fs::remove_dir_all(&dir);
+            if std::env::var("C10_TIMES").is_ok() { eprintln!("[c10] child {} took {:.1}s: {}", i, t0.elapsed().as_secs_f64(), lines.first().map(|l| l.split('\t').nth(1).unwrap_or("").to_string()).unwrap_or_default()); }
+            results.lock().unwrap().insert(i, lines);
+        }));
+    }
+    for w in workers { let _ = w.join(); }
+    let results = results.lock().unwrap();
+    let mut lost = 0;
+    for i in &selected {
+        let lines = results.get(i).cloned().unwrap_or_default();
+        if lines.is_empty() {
+            lost += 1;
+            let what = if *i < plan.len() { format!("{} {}", if plan[*i].hold { "hold" } else { "place" }, plan[*i].label) } else { "stress".to_string() };
+            cases.push("harness|child-lost", &format!("lost {} idx={}", what, i), "lost", "child process produced no case (killed after its deadline)");
+        }
+        for l in lines {
+            let f: Vec<&str> = l.split('\t').collect();
+            if f.len() >= 4 { cases.push(f[1], f[2], f[3], f.get(4).unwrap_or(&"")); }
+        }
+    }
+    eprintln!("[c10] {} cases ({} placements planned, {} stress runs, {} lost) in {:.1}s with {} jobs", selected.len(), plan.len(), stress_runs.len(), lost, t0.elapsed().as_secs_f64(), jobs);
     cases.finish();
     // leaked (hung) databases keep threads alive: leave without joining them
     std::process::exit(0);
